@@ -111,14 +111,24 @@ def run(pid, tier, args):
         gcases = [c for c in gen_lex.family(vlib.seed(), 0 if tier == "quick" else 30, supported_only=True)]
         if tier == "quick":
             gcases = [c for c in gcases if c["id"] in ("G1", "G3", "G7", "G8", "G9", "G23", "G28")]
+        # ... and classes of two-byte runes met by longer runes and lone bytes (their own alphabet)
+        ucases, ualpha = gen_lex.unicode_family()
+        ucases = [c for c in ucases if c["id"] in ("U2", "U7", "U8")] if tier == "quick" else ucases
         graw = os.path.join(wd, "graw.json")
         gen_lex.write(graw, alpha_s, gcases)
+        gall = os.path.join(wd, "gall.json")
+        gen_lex.write(gall, alpha_s, gcases + ucases)
+        uraw = os.path.join(wd, "uraw.json")
+        gen_lex.write(uraw, ualpha, ucases)
         gen = genlexer.build_generator(wd)
-        vlib.vh(vhbin, ["gen-lexers", graw, gen, os.path.join(wd, "harness-src", "genlex")])
-        vhgen = genlexer.build_with_generated(wd, v, pid, {c["id"]: c for c in gcases})
+        vlib.vh(vhbin, ["gen-lexers", gall, gen, os.path.join(wd, "harness-src", "genlex")])
+        vhgen = genlexer.build_with_generated(wd, v, pid, {c["id"]: c for c in gcases + ucases})
         tfg = os.path.join(wd, "generated.ndjson")
         vlib.vh(vhgen, ["lexstream-record", graw, "3" if tier == "quick" else "4", "generated", sx], outfile=tfg)
         n1 += validate_file(wd, tfg, v, pid, "generated")
+        tfu = os.path.join(wd, "generated-u.ndjson")
+        vlib.vh(vhgen, ["lexstream-record", uraw, "3", "generated"], outfile=tfu)
+        n1 += validate_file(wd, tfu, v, pid, "generated (classes of two-byte runes)")
         # text/scanner based lexers: Go-token alphabet
         traw = os.path.join(wd, "traw.json")
         gen_lex.write(traw, list("ae1qsnmtdQ") if tier == "quick" else list("ae1qsnmtdkQ"), [])
